@@ -3,7 +3,7 @@ from .lifebase import run_life, replay_life, NH
 
 CL = {1: "a status edge outside the life cycle", 2: "the hand count changed other than +1 on an opened hand",
       3: "a hand opened while another was unsettled", 4: "per-hand fields not reset between hands",
-      5: "a hand opened after close/release, on a break level, or before blinds were set", 6: "a game id was reused"}
+      5: "a hand opened after close/release, on a break level, or before blinds were set", 6: "a game id was reused", 7: "the level in force after UpdateBlind is not the level announced"}
 
 
 def run(res, replay=None):
